@@ -562,4 +562,17 @@ def make_scenario(seed, profile=None, index=0):
     # how the (well-behaved) target spells its finite real scalar: python float, numpy scalar, 1-element or 0-d array
     scn["ret_type"] = _choice(rng, ["float", "np64", "arr1", "arr0"], prof.get("ret_type_w", [6, 2, 1, 1]))
     scn["monitors"] = list(prof.get("monitors", []))
+    # magnitude of the target values (own stream: the rest of the scenario is unchanged). The minimiser
+    # and the ordering of values stay the same; noise scales along. Budgets are capped because the
+    # unchanged library's GP fits are slow (not wrong) at extreme magnitudes.
+    mrng = stream(seed, f"{prof.get('name', 'p')}/fmul/{index}")
+    if mrng.random() < prof.get("fmul_p", 0.04) and prof.get("name") != "c06":
+        mul = _choice(mrng, [1e-24, 1e-12, 1e-6, 1e6, 1e12])
+        scn["target"]["fmul"] = mul
+        if scn.get("noise"):
+            scn["noise"]["sigma"] = float(scn["noise"].get("sigma", 1.0)) * mul
+        if scn.get("fstar") is not None:
+            scn["fstar"] = scn["fstar"] * mul
+        scn["options"].pop("noise_size", None)
+        scn["options"]["max_fun_evals"] = min(int(scn["options"].get("max_fun_evals", 40)), 40)
     return scn
